@@ -2652,7 +2652,9 @@ func (p *parser) parseLambdaExpr(allowTuple, allowCmd, allowRangeExpr bool) (x a
 			}
 			p.expect(token.RPAREN)
 		case token.LBRACE: // {
+			p.openLabelScope() // like a function body: labels are local to the lambda
 			body = p.parseBlockStmt()
+			p.closeLabelScope()
 		default:
 			rhs = []ast.Expr{p.parseExpr(false, false, false)}
 		}
